@@ -672,10 +672,14 @@ class Polygon(Shape2D):
         edges_cross_qs = np.cross(edges[:, np.newaxis, :], q_nonzero_broadcast)
         # Due to oddities of numpy broadcasting, many singleton dimensions can persist
         # and must be squeezed out.
-        midpoints_dot_qs = np.inner(
-            midpoints[:, np.newaxis, :], q_nonzero_broadcast
-        ).squeeze()
-        edges_dot_qs = np.inner(edges[:, np.newaxis, :], q_nonzero_broadcast).squeeze()
+        # np.inner leaves two singleton dimensions, giving (N_edges, 1, 1, N_q). They
+        # are indexed out explicitly: squeeze() would also remove N_q == 1.
+        midpoints_dot_qs = np.inner(midpoints[:, np.newaxis, :], q_nonzero_broadcast)[
+            :, 0, 0, :
+        ]
+        edges_dot_qs = np.inner(edges[:, np.newaxis, :], q_nonzero_broadcast)[
+            :, 0, 0, :
+        ]
         f_ns = (
             np.dot(edges_cross_qs, self.normal)
             # Note that np.sinc(x) gives sin(pi*x)/(pi*x)
